@@ -1,3 +1,60 @@
-(* C09 - placeholder: statements land with Link/FragProofs.v *)
-From Coq Require Import NArith List.
-From ZB Require Import Base.Bytes Link.Frame Link.Frag.
+(* C09 - outgoing fragmentation partitions any message exactly, within the size limit.
+   Only statements, closed by `exact`, with Print Assumptions beneath. *)
+From Coq Require Import NArith List Arith.
+From ZB Require Import Base.Bytes Link.LinkSpec Link.LinkSpecProofs Link.Frame Link.Frag Link.FrameProofs Link.FragProofs gen.GenConsts.
+Import ListNotations.
+Open Scope nat_scope.
+
+(* the limit is the protocol's 247 *)
+Theorem C09_limit : MAXB = 247.
+Proof. exact MAXB_val. Qed.
+Print Assumptions C09_limit.
+
+(* a message (4-byte command header + payload, any length) is sent as one frame if it fits, and
+   otherwise as the frames built from the labelled pieces of spec_fragments *)
+Theorem C09_fragment_list : forall h d F, to_frame h d = Some F -> h <> 0%N ->
+  let ser := le_enc 4 h ++ d in
+  (length ser <= MAXB -> tx_fragment F = [F]) /\
+  (MAXB < length ser -> tx_fragment F = map (frame_of_piece h) (spec_fragments ser)).
+Proof. exact tx_fragment_spec. Qed.
+Print Assumptions C09_fragment_list.
+
+(* the pieces, concatenated in order, are byte for byte the message *)
+Theorem C09_pieces_concatenate : forall ser, concat (map snd (spec_fragments ser)) = ser.
+Proof. exact pieces_concat. Qed.
+Print Assumptions C09_pieces_concatenate.
+
+(* every piece is non-empty and at most 247 bytes *)
+Theorem C09_piece_sizes : forall ser, MAXB < length ser -> Forall (fun p => 0 < length (snd p) <= MAXB) (spec_fragments ser).
+Proof. exact pieces_sizes. Qed.
+Print Assumptions C09_piece_sizes.
+
+(* as few fragments as the limit allows *)
+Theorem C09_fragment_count : forall ser, MAXB < length ser -> length (spec_fragments ser) = (length ser + (MAXB - 1)) / MAXB.
+Proof. exact pieces_count. Qed.
+Print Assumptions C09_fragment_count.
+
+(* exactly the first is flagged first, exactly the last is flagged last *)
+Theorem C09_flags : forall ser, MAXB < length ser ->
+  map fst (spec_fragments ser) = llflag_FirstFrag :: repeat 0%N (length (spec_fragments ser) - 2) ++ [llflag_LastFrag].
+Proof. exact pieces_flags. Qed.
+Print Assumptions C09_flags.
+
+(* each fragment as put on the wire (any packet sequence number): well-formed, its own valid body
+   checksum (wf + spec encoding), body = its piece, length field = body + 7, flags as labelled *)
+Theorem C09_each_fragment_wellformed : forall h d seq p, h <> 0%N -> (h < 2 ^ 32)%N -> bytes_ok d -> (seq < 4)%N ->
+  let ser := le_enc 4 h ++ d in
+  MAXB < length ser -> In p (spec_fragments ser) ->
+  exists w, serialize (stamp seq (frame_of_piece h p)) = spec_encode w /\ wf w /\ w_ack w = false /\
+    w_body w = snd p /\ w_size w = (N.of_nat (length (snd p)) + 7)%N /\
+    fl_first (w_flags w) = (fst p =? llflag_FirstFrag)%N /\ fl_last (w_flags w) = (fst p =? llflag_LastFrag)%N /\
+    fl_pseq (w_flags w) = seq.
+Proof. exact fragment_frames_wellformed. Qed.
+Print Assumptions C09_each_fragment_wellformed.
+
+(* an unfragmented frame carries both flags and is well-formed: C05_command_frames (flags 192 = first|last) *)
+
+(* non-vacuity: total = 248 = 1 mod 247 (the residue class the pinned revision got wrong) *)
+Example C09_instance :
+  map (fun p => (fst p, length (snd p))) (spec_fragments (le_enc 4 65536%N ++ repeat 7%N 244)) = [(64%N, 4); (128%N, 244)].
+Proof. vm_compute. reflexivity. Qed.
